@@ -129,6 +129,9 @@ def sensor_ok(value, raw, tenths, fahrenheit):
     coarse = (raw - 50) / 2
     if abs(value - coarse) > 1.0 + 1e-9:
         return f"value {value} more than one degree from coarse {coarse}"
+    if value * coarse < 0 or (coarse == 0 and value < 0):
+        # a reading of -0.x is reported with the coarse byte of -0.5, never with that of 0.0 or above
+        return f"value {value} has the opposite sign of the coarse reading {coarse}"
     if not fahrenheit and 0 < tenths <= 9:
         digit = int(round(abs(value) * 10)) % 10
         if abs(abs(value) * 10 - round(abs(value) * 10)) > 1e-6 or digit != tenths:
